@@ -188,3 +188,28 @@ Proof.
     exists sg', (links_iter false s). fold s in E. split; [exact E|]. split; [exact Harr|exact Hi].
 Qed.
 Print Assumptions C03_source_links_iter.
+
+(* ---- the request that RECORDS links, translated (GenTraphK.v: Traph.add_links).  For EVERY history whose reopen requests
+   re-supply the rules, on the RAM tables, header and bytes of both files of the state reached, for every list of well-formed
+   links: the translated request answers the SPECIFICATION's report and leaves header, trie file and link file equal to those of
+   the model's next state (whose links are, by step_R, the specification's: every theorem above then speaks of the next state).
+   Size hypotheses: the files below 2^64 bytes, the webentity counter below 2^32. *)
+From Traph Require GenTraphK GenTraphKFacts GenTraphWDefs GenTraphPDefs AnchorsFacts GenTraphW GenTraphP.
+Import GenTraphK GenTraphWDefs GenTraphPDefs GenTraphW GenTraphP GenLinksFacts.
+Theorem C03_source_traph_add_links : forall d rs h, wf_rules rs -> Forall wf_op h -> AnchorsFacts.resupplied (init d rs) h ->
+  let s := run d rs h in let a := srun d rs h in
+  forall rm hd sg sgl links, ramrep s rm -> hrep s hd sg -> lrep (stubs s) sgl ->
+  wf_op (OAddLinks links) ->
+  let s' := fst (Ops.step s (OAddLinks links)) in
+  nb s' * 128 < 2 ^ 64 -> lastwe s + N.of_nat (2 * length links) < 2 ^ 32 -> fits (saddr (length (stubs s'))) ->
+  exists hd' sg' sgl' n c, snd (sstep s a (OAddLinks links)) = Report n c /\
+    py_traph_add_links rm hd sg sgl links = Some (hd', sg', sgl', report_of n c) /\
+    hrep s' hd' sg' /\ lrep (stubs s') sgl' /\ ramrep s' rm.
+Proof.
+  intros d rs h H1 H2 H3 s a rm hd sg sgl links Hram Hh Hl Hwf s' Hsz Hlt Hfs.
+  pose proof (proj2 (step_R _ _ (OAddLinks links) (run_RR d rs h H1 H2) Hwf)) as Hspec. fold s a in Hspec.
+  rewrite <- Hspec. clear Hspec. unfold s' in *. cbn [Ops.step] in *.
+  exact (GenTraphKFacts.py_traph_add_links_spec d rs h H1 H2 (AnchorsFacts.run_anchors_known d rs h H1 H2 H3)
+           rm hd sg sgl links Hram Hh Hl Hwf Hsz Hlt Hfs).
+Qed.
+Print Assumptions C03_source_traph_add_links.
